@@ -583,7 +583,8 @@ def js_registry(prog: Program) -> RuleResult:
     from .c18 import registry_exact
 
     r = RuleResult("JS-REGISTRY", "a class is deserialisable through the registry only if exactly that class was registered", floor=3)
-    registry_exact(prog, r)
+    # how long the registry keeps what was registered is C18's question: a forgotten registration still fails with the documented error
+    registry_exact(prog, r, strong_tables=False)
     return r
 
 
